@@ -38,7 +38,7 @@ use crate::qualified_names::QualifiedName;
 use crate::strings::ToFeelString;
 use crate::types::FeelType;
 use crate::value_null;
-use crate::values::Value;
+use crate::values::{json_string, Value};
 use dmntk_common::{DmntkError, Jsonify};
 use std::collections::{BTreeMap, HashSet};
 use std::convert::TryFrom;
@@ -124,7 +124,7 @@ impl Jsonify for FeelContext {
       self
         .0
         .iter()
-        .map(|(name, value)| format!(r#""{}": {}"#, name, value.jsonify()))
+        .map(|(name, value)| format!("{}: {}", json_string(&name.to_string()), value.jsonify()))
         .collect::<Vec<String>>()
         .join(", ")
     )
